@@ -9,8 +9,16 @@ CHECK = {
              "non-decreasing sequence over 6 (8) letters is searched with the element types and "
              "comparators of the call sites (int, OpaqueId, size_type Span, real, ItemId range into a "
              "Collection); Range/Count/step for every (begin,end,step) in a cube for int, short, long "
-             "long, unsigned, OpaqueId and enum; integer helpers over complete small domains against "
-             "exact integer / dyadic references; Span sub-views; Hyperslab and RaggedRight indexers as "
+             "long, unsigned, OpaqueId and enum (range-for, size/front/back/[], iterator arithmetic, "
+             "prefix and postfix ++/--, iterator []/->, stepped ranges walked with prefix and postfix "
+             "++), the same cube shifted next to 2^31, 2^32, -2^31 and the top of the type for the "
+             "32/64-bit integer and OpaqueId counters, short, signed char, int, and ranges of SIZE "
+             "2^31..2^33 (size, back, end-begin, [] and iterator +- near both ends, no iteration); "
+             "integer helpers over complete small domains against exact integer / dyadic references; "
+             "eumod also on tiny and ulp-adjacent numerators x non-dyadic denominators (0 <= r < d, one "
+             "ulp(d) from the exact remainder); floating min/max on NaN/inf/denormal/signed-zero pairs "
+             "against std::fmin/fmax and the identity of the object returned by integer min/max and "
+             "clamp against std::; Span sub-views; Hyperslab and RaggedRight indexers as "
              "bijections for every shape <= 4 per axis; UniformGrid/NonuniformGrid/find_interp at every "
              "knot, +-k ulp, exact-arithmetic knots, bin midpoints and ends; Interpolator (4 lin/log "
              "combinations) and Twod(Sub)gridCalculator against long double with a stated rounding "
@@ -26,6 +34,13 @@ CHECK = {
         "NonuniformGrid with repeated knots: only grid[r] <= v <= grid[r+1] is required",
         "negative Range::step with (end-begin) not divisible by |step|: only range membership, spacing and "
         "termination are required (semantics undocumented)",
+        "stepped ranges are not enumerated where a step past `end` would overflow the counter (int / "
+        "unsigned at the very top of the type); step_range_iter::operator+ is not checked because it does "
+        "not compile (see proposed_findings)",
+        "eumod: 'between zero and the denominator' is read as the half-open interval [0, denom) (as its "
+        "callers and the unit test state); for a pair of zeros of opposite sign min/max may return either",
+        "a 32-bit unsigned counter's difference_type (int) cannot represent distances >= 2^31: `end - "
+        "begin` is only required for the 64-bit counters in the wide ranges",
         "floating tolerances follow a per-operation rounding model (u = 2^-53 per correctly rounded "
         "operation, < 1 ulp for libm log2/exp2) with a safety factor, see comments in the harness",
     ],
